@@ -12,9 +12,11 @@ void vp_c17_child(const QDomElement *el, unsigned i, QDomElement *out);      // 
 bool vp_c17_children_equal(const QDomElement *a, const QDomElement *b);      // same child sequence (deep, attribute order ignored)
 // children(all) == children(pub) minus its leading `skipPubHead` and trailing `shared` children, followed by children(sens)
 bool vp_c17_is_split(const QDomElement *all, const QDomElement *pub, const QDomElement *sens, unsigned skipPubHead, unsigned shared);
+void vp_c17_str(QString *out, unsigned n);                                    // exactly n arbitrary UTF-16 units (length is a constant for symex)
 void vp_c17_sym_datetime(QDateTime *out);                                    // arbitrary VALID date-time (abstract value)
 unsigned vp_c17_unknown();                                                   // number of QXmppElement(QDomElement) constructions = elements that fell through to "unknown extension"
 void vp_c17_unknown_reset();
+bool vp_c17_kf_d12();                                                        // known finding d12_jmi_callinvite listed (-DKF_d12_jmi_callinvite)
 }
 
 // ---- unknown extensions (QXmppElement.cpp is not linked): a counting stand-in, so "element not recognised in this mode" is observable
@@ -27,6 +29,12 @@ QXmppElement::~QXmppElement() { }
 QXmppElement &QXmppElement::operator=(const QXmppElement &) { return *this; }
 void QXmppElement::toXml(QXmlStreamWriter *) const { }
 
+static QString c17Str(unsigned n)
+{
+    QString s;
+    vp_c17_str(&s, n);
+    return s;
+}
 enum Part { PUB, SENS, BOTH, PUBONLY };
 struct C17Trees {
     QDomElement pub, sens, all;
@@ -34,8 +42,8 @@ struct C17Trees {
 
 static void c17_base(QXmppMessage &m)
 {
-    m.setId(vpSymStringNonEmpty(1));
-    m.setTo(vpSymString(1));
+    m.setId(c17Str(1));
+    m.setTo(c17Str(1));
 }
 static void c17_serialize(const QXmppMessage &m, C17Trees &t)
 {
@@ -103,9 +111,9 @@ static void c17_roundtrip(const C17Trees &t, QXmppMessage &r)
     }
 #define SET(name) static void set_##name(QXmppMessage &m)
 #define CHK(name) static void chk_##name(const QXmppMessage &m, const QXmppMessage &r)
-#define S1 vpSymStringNonEmpty(2)
+#define S1 c17Str(1)
 
-// ================= whitelisted (public) fields =================
+// ================= whitelisted (public) fields: DESIGN C17 whitelist = fallback body, private, hints, stanza-id, origin-id, mix, EME, fallback markers =================
 FIELD(e2ee_fallback_body, PUBONLY, 1, u"body", u"")
 SET(e2ee_fallback_body) { m.setE2eeFallbackBody(S1); }
 CHK(e2ee_fallback_body) { vp_assert(r.e2eeFallbackBody() == m.e2eeFallbackBody() && r.body().isEmpty(), "C17 (iii) e2eeFallbackBody restored from the public part, body stays empty"); }
@@ -114,9 +122,80 @@ FIELD(private_msg, PUB, 1, u"private", ns_carbons)
 SET(private_msg) { m.setPrivate(true); }
 CHK(private_msg) { vp_assert(r.isPrivate(), "C17 (iii) private restored"); }
 
+// one instance per hint (VP_CASE = hint index): structure stays concrete
+static constexpr QStringView C17_HINT_TAGS[4] = { u"no-permanent-store", u"no-store", u"no-copy", u"store" };
+static unsigned c17_hint_index() { return vp_case_u(0, 4); }
+FIELD(hint, PUB, 1, C17_HINT_TAGS[c17_hint_index()], ns_message_processing_hints)
+SET(hint) { m.addHint(QXmppMessage::Hint(1u << c17_hint_index())); }
+CHK(hint)
+{
+    bool ok = true;
+    for (unsigned i = 0; i < 4; i++) {
+        ok = ok && (r.hasHint(QXmppMessage::Hint(1u << i)) == m.hasHint(QXmppMessage::Hint(1u << i)));
+    }
+    vp_assert(ok, "C17 (iii) hints restored");
+}
+
+FIELD(stanza_id, PUB, 1, u"stanza-id", ns_sid)
+SET(stanza_id)
+{
+    m.setStanzaId(S1);
+    m.setStanzaIdBy(S1);
+}
+CHK(stanza_id)
+{
+    vp_assert(r.stanzaIds().size() == 1 && r.stanzaId() == m.stanzaId() && r.stanzaIdBy() == m.stanzaIdBy(), "C17 (iii) stanza id restored");
+}
+FIELD(stanza_ids2, PUB, 2, u"stanza-id", ns_sid)
+SET(stanza_ids2) { m.setStanzaIds({ QXmppStanzaId { S1, S1 }, QXmppStanzaId { S1, QString() } }); }
+CHK(stanza_ids2)
+{
+    auto a = r.stanzaIds(), b = m.stanzaIds();
+    vp_assert(a.size() == 2 && a.at(0).id == b.at(0).id && a.at(0).by == b.at(0).by && a.at(1).id == b.at(1).id && a.at(1).by.isEmpty(), "C17 (iii) stanza ids restored");
+}
+
 FIELD(origin_id, PUB, 1, u"origin-id", ns_sid)
 SET(origin_id) { m.setOriginId(S1); }
 CHK(origin_id) { vp_assert(r.originId() == m.originId(), "C17 (iii) originId restored"); }
+
+FIELD(mix_user, PUB, 1, u"mix", ns_mix)
+SET(mix_user)
+{
+    m.setMixUserJid(S1);
+    m.setMixUserNick(S1);
+}
+CHK(mix_user) { vp_assert(r.mixUserJid() == m.mixUserJid() && r.mixUserNick() == m.mixUserNick(), "C17 (iii) MIX user jid/nick restored"); }
+FIELD(mix_jid, PUB, 1, u"mix", ns_mix)
+SET(mix_jid) { m.setMixUserJid(S1); }
+CHK(mix_jid) { vp_assert(r.mixUserJid() == m.mixUserJid() && r.mixUserNick().isEmpty(), "C17 (iii) MIX user jid restored"); }
+FIELD(mix_nick, PUB, 1, u"mix", ns_mix)
+SET(mix_nick) { m.setMixUserNick(S1); }
+CHK(mix_nick) { vp_assert(r.mixUserNick() == m.mixUserNick() && r.mixUserJid().isEmpty(), "C17 (iii) MIX user nick restored"); }
+
+FIELD(eme, PUB, 1, u"encryption", ns_eme)
+SET(eme)
+{
+    m.setEncryptionMethodNs(S1);
+    m.setEncryptionName(S1);
+}
+CHK(eme) { vp_assert(r.encryptionMethodNs() == m.encryptionMethodNs() && r.encryptionName() == m.encryptionName(), "C17 (iii) explicit message encryption restored"); }
+
+// fallback markers accompany both parts (so parsing both parts yields the marker twice: "fallback markers aside")
+FIELD(fallback_marker, BOTH, 1, u"fallback", ns_fallback_indication)
+SET(fallback_marker)
+{
+    QXmppFallback::Reference ref { QXmppFallback::Body, QXmppFallback::Range { vp_u32(), vp_u32() } };
+    m.setFallbackMarkers({ QXmppFallback(S1, { ref }) });
+}
+CHK(fallback_marker)
+{
+    const auto &a = r.fallbackMarkers();
+    const auto &b = m.fallbackMarkers();
+    bool ok = a.size() >= 1 && a.size() <= 2 && a.first().forNamespace() == b.first().forNamespace() && a.last().forNamespace() == b.first().forNamespace();
+    ok = ok && a.first().references().size() == 1 && a.first().references().first().element == QXmppFallback::Body && a.first().references().first().range.has_value() &&
+        a.first().references().first().range->start == b.first().references().first().range->start && a.first().references().first().range->end == b.first().references().first().range->end;
+    vp_assert(ok, "C17 (iii) fallback marker restored (from either part)");
+}
 
 // ================= sensitive fields =================
 FIELD(body, SENS, 1, u"body", u"")
@@ -127,18 +206,24 @@ FIELD(subject, SENS, 1, u"subject", u"")
 SET(subject) { m.setSubject(S1); }
 CHK(subject) { vp_assert(r.subject() == m.subject(), "C17 (iii) subject restored"); }
 
-FIELD(jmi, SENS, 1, u"propose", ns_jingle_message_initiation)
-SET(jmi)
+FIELD(thread, SENS, 1, u"thread", u"")
+SET(thread)
 {
-    QXmppJingleMessageInitiationElement e;
-    e.setId(S1);
-    m.setJingleMessageInitiationElement(e);
+    m.setThread(S1);
+    m.setParentThread(S1);
 }
-CHK(jmi)
-{
-    auto a = r.jingleMessageInitiationElement();
-    vp_assert(a.has_value() && a->id() == m.jingleMessageInitiationElement()->id(), "C17 (iii) Jingle message initiation element restored");
-}
+CHK(thread) { vp_assert(r.thread() == m.thread() && r.parentThread() == m.parentThread(), "C17 (iii) thread / parent thread restored"); }
+
+FIELD(oob_url, SENS, 1, u"x", ns_oob)
+SET(oob_url) { m.setOutOfBandUrl(S1); }
+CHK(oob_url) { vp_assert(r.outOfBandUrls().size() == 1 && r.outOfBandUrl() == m.outOfBandUrl(), "C17 (iii) out-of-band url restored"); }
+
+// chat state: one instance per state (VP_CASE = state - 1)
+static constexpr QStringView C17_STATE_TAGS[5] = { u"active", u"inactive", u"gone", u"composing", u"paused" };
+static unsigned c17_state_index() { return vp_case_u(0, 5); }
+FIELD(chat_state, SENS, 1, C17_STATE_TAGS[c17_state_index()], ns_chat_states)
+SET(chat_state) { m.setState(QXmppMessage::State(1 + c17_state_index())); }
+CHK(chat_state) { vp_assert(r.state() == m.state(), "C17 (iii) chat state restored"); }
 
 FIELD(stamp, SENS, 1, u"delay", ns_delayed_delivery)
 SET(stamp)
@@ -148,3 +233,190 @@ SET(stamp)
     m.setStamp(dt);
 }
 CHK(stamp) { vp_assert(r.stamp() == m.stamp(), "C17 (iii) stamp restored"); }
+
+FIELD(receipt_id, SENS, 1, u"received", ns_message_receipts)
+SET(receipt_id) { m.setReceiptId(S1); }
+CHK(receipt_id) { vp_assert(r.receiptId() == m.receiptId() && !r.isReceiptRequested(), "C17 (iii) receipt id restored"); }
+
+FIELD(receipt_request, SENS, 1, u"request", ns_message_receipts)
+SET(receipt_request) { m.setReceiptRequested(true); }
+CHK(receipt_request) { vp_assert(r.isReceiptRequested() && r.receiptId().isEmpty(), "C17 (iii) receipt request restored"); }
+
+FIELD(attention, SENS, 1, u"attention", ns_attention)
+SET(attention) { m.setAttentionRequested(true); }
+CHK(attention) { vp_assert(r.isAttentionRequested(), "C17 (iii) attention request restored"); }
+
+FIELD(bob, SENS, 1, u"data", ns_bob)
+SET(bob)
+{
+    QXmppBitsOfBinaryData d;
+    d.setMaxAge(vp_int());
+    QXmppBitsOfBinaryDataList l;
+    l << d;
+    m.setBitsOfBinaryData(l);
+}
+CHK(bob) { vp_assert(r.bitsOfBinaryData().size() == 1 && r.bitsOfBinaryData().first().maxAge() == m.bitsOfBinaryData().first().maxAge(), "C17 (iii) bits of binary restored"); }
+
+FIELD(muc_invitation, SENS, 1, u"x", ns_conference)
+SET(muc_invitation)
+{
+    m.setMucInvitationJid(S1);
+    m.setMucInvitationPassword(S1);
+    m.setMucInvitationReason(S1);
+}
+CHK(muc_invitation)
+{
+    vp_assert(r.mucInvitationJid() == m.mucInvitationJid() && r.mucInvitationPassword() == m.mucInvitationPassword() && r.mucInvitationReason() == m.mucInvitationReason(), "C17 (iii) MUC invitation restored");
+}
+
+FIELD(replace_id, SENS, 1, u"replace", ns_message_correct)
+SET(replace_id) { m.setReplaceId(S1); }
+CHK(replace_id) { vp_assert(r.replaceId() == m.replaceId(), "C17 (iii) replace id restored"); }
+
+FIELD(markable, SENS, 1, u"markable", ns_chat_markers)
+SET(markable) { m.setMarkable(true); }
+CHK(markable) { vp_assert(r.isMarkable() && r.marker() == QXmppMessage::NoMarker, "C17 (iii) markable restored"); }
+
+static constexpr QStringView C17_MARKER_TAGS[3] = { u"received", u"displayed", u"acknowledged" };
+static unsigned c17_marker_index() { return vp_case_u(0, 3); }
+FIELD(marker, SENS, 1, C17_MARKER_TAGS[c17_marker_index()], ns_chat_markers)
+SET(marker)
+{
+    m.setMarker(QXmppMessage::Marker(1 + c17_marker_index()));
+    m.setMarkerId(S1);
+    m.setMarkedThread(S1);
+}
+CHK(marker) { vp_assert(r.marker() == m.marker() && r.markedId() == m.markedId() && r.markedThread() == m.markedThread() && !r.isMarkable(), "C17 (iii) chat marker restored"); }
+
+FIELD(attach_id, SENS, 1, u"attach-to", ns_message_attaching)
+SET(attach_id) { m.setAttachId(S1); }
+CHK(attach_id) { vp_assert(r.attachId() == m.attachId(), "C17 (iii) attach id restored"); }
+
+FIELD(spoiler, SENS, 1, u"spoiler", ns_spoiler)
+SET(spoiler) { m.setSpoilerHint(S1); }
+CHK(spoiler) { vp_assert(r.isSpoiler() && r.spoilerHint() == m.spoilerHint(), "C17 (iii) spoiler restored"); }
+
+FIELD(mix_invitation, SENS, 1, u"invitation", ns_mix_misc)
+SET(mix_invitation)
+{
+    QXmppMixInvitation e;
+    e.setToken(S1);
+    m.setMixInvitation(e);
+}
+CHK(mix_invitation)
+{
+    auto a = r.mixInvitation();
+    vp_assert(a.has_value() && a->token() == m.mixInvitation()->token(), "C17 (iii) MIX invitation restored");
+}
+
+FIELD(trust_message, SENS, 1, u"trust-message", ns_tm)
+SET(trust_message)
+{
+    QXmppTrustMessageElement e;
+    e.setUsage(S1);
+    m.setTrustMessageElement(e);
+}
+CHK(trust_message)
+{
+    auto a = r.trustMessageElement();
+    vp_assert(a.has_value() && a->usage() == m.trustMessageElement()->usage(), "C17 (iii) trust message element restored");
+}
+
+FIELD(reaction, SENS, 1, u"reactions", ns_reactions)
+SET(reaction)
+{
+    QXmppMessageReaction e;
+    e.setMessageId(S1);
+    m.setReaction(e);
+}
+CHK(reaction)
+{
+    auto a = r.reaction();
+    vp_assert(a.has_value() && a->messageId() == m.reaction()->messageId(), "C17 (iii) reaction restored");
+}
+
+FIELD(shared_file, SENS, 1, u"file-sharing", ns_sfs)
+SET(shared_file)
+{
+    QXmppFileShare f;
+    f.setId(S1);
+    m.setSharedFiles({ f });
+}
+CHK(shared_file) { vp_assert(r.sharedFiles().size() == 1 && r.sharedFiles().first().id() == m.sharedFiles().first().id(), "C17 (iii) shared file restored"); }
+
+FIELD(file_sources, SENS, 1, u"sources", ns_sfs)
+SET(file_sources)
+{
+    QXmppFileSourcesAttachment f;
+    f.setId(S1);
+    m.setFileSourcesAttachments({ f });
+}
+CHK(file_sources)
+{
+    auto a = r.fileSourcesAttachments(), b = m.fileSourcesAttachments();
+    vp_assert(a.size() == 1 && a.first().id() == b.first().id(), "C17 (iii) file sources attachment restored");
+}
+
+FIELD(reply, SENS, 1, u"reply", ns_reply)
+SET(reply) { m.setReply(QXmpp::Reply { S1, S1 }); }
+CHK(reply)
+{
+    auto a = r.reply();
+    vp_assert(a.has_value() && a->to == m.reply()->to && a->id == m.reply()->id, "C17 (iii) reply restored");
+}
+
+// Jingle message initiation and call invites: SERIALIZED in the sensitive block. DESIGN D12: the unchanged tree PARSES them in the
+// public block, so the split round trip (iii) loses them; with known finding `d12_jmi_callinvite` listed that one obligation is
+// skipped here and demonstrated by the kf_* instances instead.
+static void set_jmi_(QXmppMessage &m)
+{
+    QXmppJingleMessageInitiationElement e;
+    e.setId(S1);
+    m.setJingleMessageInitiationElement(e);
+}
+static bool same_jmi(const QXmppMessage &m, const QXmppMessage &r)
+{
+    auto a = r.jingleMessageInitiationElement();
+    return a.has_value() && a->id() == m.jingleMessageInitiationElement()->id();
+}
+static void set_call_invite_(QXmppMessage &m)
+{
+    QXmppCallInviteElement e;
+    e.setId(S1);
+    m.setCallInviteElement(e);
+}
+static bool same_call_invite(const QXmppMessage &m, const QXmppMessage &r)
+{
+    auto a = r.callInviteElement();
+    return a.has_value() && a->id() == m.callInviteElement()->id();
+}
+#define FIELD_D12(name, tag, ns, SETTER, SAME, WHAT)                                                                          \
+    static void c17_d12_##name(bool assertSplit)                                                                              \
+    {                                                                                                                         \
+        QXmppMessage m;                                                                                                       \
+        c17_base(m);                                                                                                          \
+        SETTER(m);                                                                                                            \
+        C17Trees t;                                                                                                           \
+        c17_serialize(m, t);                                                                                                  \
+        c17_place(t, SENS, 1, tag, ns);                                                                                       \
+        QXmppMessage r;                                                                                                       \
+        vp_c17_unknown_reset();                                                                                               \
+        r.parse(t.pub, QXmpp::ScePublic);                                                                                     \
+        r.parse(t.sens, QXmpp::SceSensitive);                                                                                 \
+        bool ok = vp_c17_unknown() == 0 && SAME(m, r);                                                                        \
+        vp_assert(assertSplit ? ok : true, "C17 (iii) " WHAT " restored by parsing the public part, then the sensitive part"); \
+        QXmppMessage r2;                                                                                                      \
+        r2.parse(t.all, QXmpp::SceAll);                                                                                       \
+        vp_assert(SAME(m, r2), "C17 " WHAT " restored from the unsplit message");                                             \
+    }                                                                                                                         \
+    extern "C" void h_f_##name() { c17_d12_##name(!vp_c17_kf_d12()); }                                                        \
+    extern "C" void h_kf_##name() { c17_d12_##name(true); }
+FIELD_D12(jmi, u"propose", ns_jingle_message_initiation, set_jmi_, same_jmi, "Jingle message initiation element")
+FIELD_D12(call_invite, u"invite", ns_call_invites, set_call_invite_, same_call_invite, "call invite element")
+
+#ifdef C17_DEBUG
+extern "C" void h_dbg1() { QXmppMessage m; c17_base(m); set_body(m); C17Trees t; c17_serialize(m, t); }
+extern "C" void h_dbg2() { QXmppMessage m; c17_base(m); set_body(m); C17Trees t; c17_serialize(m, t); c17_place(t, SENS, 1, u"body", u""); }
+extern "C" void h_dbg3() { QXmppMessage m; c17_base(m); set_body(m); C17Trees t; c17_serialize(m, t); QXmppMessage r; r.parse(t.pub, QXmpp::ScePublic); }
+extern "C" void h_dbg4() { QXmppMessage m; c17_base(m); set_body(m); C17Trees t; c17_serialize(m, t); QXmppMessage r; r.parse(t.sens, QXmpp::SceSensitive); }
+#endif
